@@ -119,6 +119,30 @@ static void mini(Block & b, const std::string & params, const std::function<void
   pe.set_time(0.0);
   CmpResult c = compare_events(re, pe, rd, pd, false);
   b.distinct.insert(re.signature(100) + "/" + std::to_string(rd));
+  if (!c.same && !s.port_fermi) {
+    // root-cause probe: every kernel that samples a beta spectrum calls fermi(); the recorded difference of the mass constant in fermi
+    // (key levelA|fermi|mass-constant, characterised by the fermi block above) flips about one accept/reject decision in 2e5.  Replay
+    // the reference with the port's fermi linked in: if it then agrees with the port, this mismatch is that root cause and nothing else.
+    s.port_fermi = true;
+    RefEvent re2;
+    tape.rewind();
+    vf_clearevent_();
+    bool ok2 = true;
+    s.jb_armed = true;
+    if (setjmp(s.jb) != 0) ok2 = false;
+    else ref();
+    s.jb_armed = false;
+    size_t rd2 = tape.pos;
+    re2.fetch();
+    s.port_fermi = false;
+    if (ok2) {
+      CmpResult c2 = compare_events(re2, pe, rd2, pd, false);
+      if (c2.same) {
+        b.fail("levelA|fermi|mass-constant", params + ": " + c.detail + " (agrees once the port's fermi is linked into the reference)");
+        return;
+      }
+    }
+  }
   if (!c.same) b.fail("levelA|" + b.name + "|" + c.kind, params + ": " + c.detail + " tape=" + tape.prefix_json(std::min<size_t>(std::max(rd, pd), 30)));
   if (outputs_equal && !outputs_equal()) b.fail("levelA|" + b.name + "|output-arg", params + ": returned decay time differs");
 }
